@@ -69,6 +69,8 @@ class Session:
         self.pass_bound = None
         self.choice_budget = None  # remaining branching decisions for the whole run (set by the caller)
         self.solution_budget = None  # how many times the search may reach a solution (set by the caller)
+        self.shave_budget = None  # remaining shaving attempts in the current call of the shaving algorithm
+        self.shave_bound = None
         self.solution_budget_why = ""
         self.schedule = None  # optional priority list for pop_propagator (C08)
         self.in_shaving = 0
@@ -173,10 +175,15 @@ def _wrap_shaving(orig):
             }
         s.n["shaving"] += 1
         s.in_shaving += 1
+        size = int(np.maximum(before[:, 1] - before[:, 0] + 1, 0).sum())
+        saved_shave = (s.shave_budget, s.shave_bound)
+        s.shave_bound = (size + 1) * (2 * len(before) + 1)
+        s.shave_budget = s.shave_bound
         try:
             status = orig(*a)
         finally:
             s.in_shaving -= 1
+            s.shave_budget, s.shave_bound = saved_shave
         if status == nx.PROBLEM_BOUND:
             s.count_solution()
         if s.detail:
@@ -312,6 +319,10 @@ def install():
         if s_ is not None and s_.detail:
             # a[12] = shr_domains_stack, a[15] = stacks_top, a[1] = dom_idx
             before = a[12][int(a[15][0]), int(a[1])].copy()
+        if s_ is not None and s_.budget and s_.shave_budget is not None:
+            s_.shave_budget -= 1
+            if s_.shave_budget < 0:
+                raise BudgetExceeded("one call of the shaving algorithm made more than (S+1)*(2D+1) = %d shaving attempts" % s_.shave_bound)
         r = ORIG["shave_bound"](*a)
         if s_ is not None:
             s_.n["shave_try"] += 1
@@ -385,7 +396,8 @@ def with_line_budget(fn, *a, budget=LINE_BUDGET, **kw):
     propagator/heuristic*; raises BudgetExceeded when one call executes more than `budget` lines.
     (sys.settrace: slow, used only to confirm a hang suspect deterministically.)
     """
-    state = {"depth": 0, "count": 0}
+    state = {"depth": 0, "count": 0, "total": 0}
+    total_budget = 40 * budget  # all nucs frames together (loops of the engine itself); cases normally execute < 10^5 lines
 
     def local(frame, event, arg):
         if event == "line":
@@ -394,6 +406,14 @@ def with_line_budget(fn, *a, budget=LINE_BUDGET, **kw):
                 sys.settrace(None)
                 raise BudgetExceeded("a single propagator/heuristic call executed more than %d lines (%s:%d)" % (budget, os.path.basename(frame.f_code.co_filename), frame.f_lineno))
         return local
+
+    def engine_local(frame, event, arg):
+        if event == "line":
+            state["total"] += 1
+            if state["total"] > total_budget:
+                sys.settrace(None)
+                raise BudgetExceeded("the engine executed more than %d lines on this case (%s:%d)" % (total_budget, os.path.basename(frame.f_code.co_filename), frame.f_lineno))
+        return engine_local
 
     def tracer(frame, event, arg):
         if event != "call":
@@ -404,6 +424,8 @@ def with_line_budget(fn, *a, budget=LINE_BUDGET, **kw):
             if name.startswith("compute_domains") or name.endswith("_heuristic"):
                 state["count"] = 0  # a new top-level call
             return local
+        if "/nucs/" in fn_:
+            return engine_local
         return None
 
     sys.settrace(tracer)
